@@ -356,7 +356,57 @@ def run_users(spec):
                 detail='a store path bypasses write_atomic')
 
 
+from engine.e1 import Harness, run_ob, spec as e1spec, replay as e1_replay  # noqa
+from engine.symex import AND, OR, NOT, IMPLIES, path_eq
+from props.C05_cachemap import FileCacheOps, FakeTile, DIMS, _Src, _always
+
+
+class StoreSequence(FileCacheOps):
+    """crash windows of FileCache.store_tile read off its real file-system call sequence (oracle
+    tape for exists/islink): the published tile name is only ever unlinked when it is a link (the
+    exception the property allows: a linked single-colour tile being replaced) -- an ordinary tile
+    is replaced by the atomic rename alone, so a crash at any point leaves the old or the new file"""
+    functions = ['FileCache.store_tile', 'FileCache._store', 'FileCache._store_single_color_tile']
+
+    @classmethod
+    def prop(cls, ctx, cfg, x, y, z, tape, color=None, single=False):
+        cache, ros, f = ctx['cache'], ctx['os'], ctx['f']
+        ros.reset(tape)
+        d = DIMS[cfg['d1']]
+        coord = (x, y, z)
+        expected = cache.tile_location(FakeTile(coord), dimensions=d)
+        ev = ros.events
+        del ev[:]
+        t = FakeTile(coord, source=_Src())
+        is_single = False
+        if cfg.get('link'):
+            from props.C05_cachemap import ITE_obj
+            col = tuple(color)
+            is_single = bool(single) if hasattr(single, 't') else single
+            f.__dict__['is_single_color_image'] = lambda img: (col if is_single else False)
+        cache.store_tile(t, dimensions=d)
+        ok = True
+        for i, e in enumerate(ev):
+            if e[0] in ('unlink', 'remove') and _always(path_eq(e[1], expected)):
+                if is_single:
+                    continue     # replacing a tile by a link: the missing-window is allowed by the property
+                # must have been reported as a link right before
+                was_link = False
+                for j in range(i - 1, -1, -1):
+                    if ev[j][0] == 'islink' and _always(path_eq(ev[j][1], expected)):
+                        was_link = ev[j][2]
+                        break
+                ok = AND(ok, was_link)
+        # and the new content arrives through write_atomic on the final name (or a link for single colour tiles)
+        writes = [e for e in ev if e[0] == 'write_atomic' and _always(path_eq(e[1], expected))]
+        links = [e for e in ev if e[0] in ('link', 'symlink') and _always(path_eq(e[2], expected))]
+        ok = AND(ok, len(writes) + len(links) == 1)
+        return ok
+
+
 def replay(body):
+    if body.get('args', {}).get('harness'):
+        return e1_replay(body)
     if 'L' in (body.get('cex') or {}):
         c = body['cex']
         ok, detail, f = native_crash_v2(c, map_byte_fn(c.get('bytes', {})), _patches(body))
@@ -400,6 +450,15 @@ def obligations(tier, seed):
     for fail in ('open', 'write', 'rename'):
         specs.append(_spec('write-atomic/io-error-in-%s' % fail, 'run_write_atomic', fail_at=fail))
     specs.append(_spec('write-atomic/users', 'run_users'))
+    for layout in ('tc', 'tms'):
+        for link in (False, 'symlink', 'hardlink'):
+            specs.append(e1spec(MOD, 'StoreSequence', 'file-store-sequence/%s/link-%s' % (layout, link),
+                                cfg=dict(layout=layout, d1='none', op='store_tile', link=link), cost=5))
+    specs.append(e1spec(MOD, 'StoreSequence', 'twin/StoreSequence', kind='witness', cfg=dict(layout='tc', d1='none', op='store_tile', link='hardlink')))
+    specs.append(e1spec(MOD, 'StoreSequence', 'canary/existing tile unlinked before the atomic write (hardlink mode)', kind='canary',
+                        cfg=dict(layout='tc', d1='none', op='store_tile', link='hardlink'),
+                        patches={'mapproxy.cache.file': [["        if os.path.islink(location):\n            os.unlink(location)",
+                                                          "        if os.path.islink(location) or (\n                self.link_single_color_images == 'hardlink' and os.path.exists(location)):\n            os.unlink(location)"]]}))
     specs.append(_spec('twin/bundle-v2-crash', 'run_crash_v2', kind='witness', n=5, k=1, cost=5))
     for label, func, patches, extra in (CANARIES if tier == 'thorough' else CANARIES[:5]):
         specs.append(_spec('canary/' + label, func, kind='canary', cost=30, n=5,
